@@ -72,7 +72,8 @@ def _solver(timeout_ms):
 
 def _run_conc(obl, case, values, seed, tier, max_tries=60):
     """Concrete run of the contract on the REAL (uninstrumented) functions.  Returns dict."""
-    from .core import Ctx, Reject
+    from .core import Ctx, Reject, Tol
+    Tol.rel, Tol.abs = (obl.tol, obl.tol) if obl.tol else (1e-8, 1e-9)   # float tolerance of the concrete evaluator
     rng = random.Random(seed)
     tries = 0
     while True:
